@@ -48,9 +48,9 @@ func genOp(t *rapid.T, stores []StoreOpts, g GenOpts, tg *tagger, txn int) Op {
 	s := rapid.IntRange(0, len(stores)-1).Draw(t, "store")
 	var kinds []string
 	if stores[s].Unique {
-		kinds = []string{"add", "add", "add", "addIfNotExist", "upsert", "upsert", "update", "update", "remove", "remove", "findGet", "curUpdate", "curRemove", "scan", "count"}
+		kinds = []string{"add", "add", "add", "addIfNotExist", "upsert", "upsert", "update", "update", "remove", "remove", "findGet", "curUpdate", "curRemove", "scan", "count", "updateKey", "curUpdateKey"}
 	} else {
-		kinds = []string{"add", "add", "add", "add", "findGet", "curUpdate", "curUpdate", "curRemove", "curRemove", "scan", "count"}
+		kinds = []string{"add", "add", "add", "add", "findGet", "curUpdate", "curUpdate", "curRemove", "curRemove", "scan", "count", "updateKey", "curUpdateKey"}
 	}
 	op := Op{S: s, Kind: rapid.SampledFrom(kinds).Draw(t, "kind")}
 	op.K = rapid.IntRange(0, g.KeyDomain-1).Draw(t, "key")
